@@ -32,7 +32,8 @@ S = Suite(
           "|L| 5..1e9 m of both signs with |zm/L| <= 20 and ln(zm/z0)+psi >= 0.5, n 1..40, Pr in "
           "{0.7,1,1.3}, domain height default (also 1.5zm/3zm when n >= 4), default stretch; x = z/L in "
           "+-[1e-12, 50] for psi/phi; L = inf (exact neutrality), array-valued tke, "
-          "domain_height <= zm and custom stretch not examined",
+          "domain_height <= zm and custom stretch not examined; call histories: a base forcing followed by 10 near-twins "
+          "differing in one argument (z0 by 0.2 % / 2e-5, zm, L, wind, n, Pr, closure, given quantity)",
     rule="1e-9 relative for wind at z[n] and K; 1e-12*zm for z[0], z[n]; 1e-10 for the z0<->ustar "
          "round trip; quad abs 1e-10 + rel 1e-9 for psi; 1e-12 for the reference copies",
 )
@@ -151,6 +152,25 @@ def profiles(closure, n, zm, z0, um, vm, mol, prsc, dh_factor, given):
             return Verdict(False, "%s: K=%r, similarity value at zm %r (/phi: %r)"
                            % (tag, Kz[0], want, want / phi_c(zm / mol)), key="K-not-similarity")
     return Verdict(True, tag)
+
+
+@S.kind("profiles-history")
+def profiles_history(base, variants):
+    """One process, several calls: the base forcing first, then near-twin forcings that differ from it in ONE argument by
+    a small amount (roughness length by 0.2 %, measurement height, stability, wind, layer count, closure).  Every call is
+    judged by the per-call oracle of `profiles`: what an earlier call computed must not show in a later one."""
+    v0 = profiles(**base)
+    if not v0.ok:
+        return v0
+    for k, var in enumerate(variants):
+        v = profiles(**dict(base, **var))
+        if not v.ok:
+            return Verdict(False, "call %d after the base call (%r changed): %s" % (k + 1, var, v.detail), key="history-" + (v.key or "profiles"))
+    # and the base forcing again after its neighbours
+    v = profiles(**base)
+    if not v.ok:
+        return Verdict(False, "base forcing repeated after its neighbours: %s" % v.detail, key="history-" + (v.key or "profiles"))
+    return Verdict(True, "%d calls" % (len(variants) + 2))
 
 
 @S.kind("oaahoc")
@@ -303,6 +323,14 @@ def generate(tier, rng):
             yield "profiles", dict(closure=closure, n=n, zm=zm, z0=z0, um=um, vm=vm, mol=mol,
                                    prsc=rng.choice([1.0, 1.0, 0.7, 1.3]), dh_factor=dh,
                                    given=("ustar", "z0")[k % 2])
+        for k in range(6 if q else 40):
+            zm, z0, um, vm, mol = _consistent(rng)
+            n = rng.choice([2, 3, 5, 8, 16])
+            base = dict(closure=closure, n=n, zm=zm, z0=z0, um=um, vm=vm, mol=mol, prsc=1.0, dh_factor=0, given=("z0", "ustar")[k % 2])
+            other = {"MOST": "MOSTM", "MOSTM": "CONSTANT", "CONSTANT": "MOST"}[closure]
+            yield "profiles-history", dict(base=base, variants=[dict(z0=z0 * 1.002), dict(z0=z0 * (1 + 2e-5)), dict(zm=zm * (1 + 1e-4)), dict(mol=mol * 1.003),
+                                                                dict(um=um * 1.001), dict(vm=vm + 0.01), dict(n=n + 1), dict(prsc=1.3), dict(closure=other),
+                                                                dict(given=("ustar", "z0")[k % 2])])
         for k in range(nprof // 3):
             zm, z0, um, vm, mol = _consistent(rng)
             yield "roundtrip", dict(closure=closure, n=rng.randint(1, 40), zm=zm, z0=z0, um=um,
